@@ -76,6 +76,24 @@
 (*  - The cache is a set of answered questions; "fresh" stands for a       *)
 (*    never-repeated name.  TTLs, prefetch, dedup joins are out of scope   *)
 (*    (processes in flight together ask different questions).              *)
+(*                                                                         *)
+(* Gap C17-r3-1 (resolver-internal sub-queries are never subjected to      *)
+(* client rate-limit policy).  `Aliases` are questions the upstream        *)
+(* answers with a bare CNAME to `AliasTarget`.  The cache keeps only the   *)
+(* CNAME under the alias (filterCacheableAnswer) and completes EVERY       *)
+(* answer to an alias -- the write-back of a miss and every later hit --   *)
+(* by chasing the target through its internal Queryer                      *)
+(* (additionalAnswer -> internalExchange -> the query sub-pipeline on a    *)
+(* BufferWriter, Internal() = TRUE): that sub-query meets the cache again; *)
+(* a hit there is served whatever the target entry's limiter holds and     *)
+(* costs it nothing (handleCacheHit: `!w.Internal() && ...`), a miss asks  *)
+(* the upstream and caches the target.  The wire ladder composes a chase   *)
+(* out of the cache without any limiter (collectWireChase).  `ich` counts  *)
+(* entry tokens an internal sub-query was charged, `part` says the reply   *)
+(* lacks the target because the sub-query was refused; both stay 0 / FALSE *)
+(* in the code (InternalNeverLimited); the mutant LimitInternal drops the  *)
+(* guard.  Alias questions come in through the decoded and the wire entry  *)
+(* in sequential call orders only.                                         *)
 (***************************************************************************)
 EXTENDS Integers, FiniteSets, Sequences, TLC
 
@@ -107,7 +125,16 @@ CONSTANTS
   EchoCached,      \* BADCOOKIE carries the remembered cookie instead of the fresh one
   ReuseEvicted,    \* a bucket created over an evicted one inherits its tokens and cookie
   SharedKey,       \* every address hashes to one key
-  ChargeBeforeFit  \* serveHitFromWire pays the entry token before the size / DNSSEC-fit gate (wireChainMismatch)
+  ChargeBeforeFit, \* serveHitFromWire pays the entry token before the size / DNSSEC-fit gate (wireChainMismatch)
+  LimitInternal,   \* (seeded C17-r3-1) handleCacheHit lost `!w.Internal() &&`: the entry limiter is asked for internal hits too
+  \* ---- the chase dimension --------------------------------------------------------------
+  Aliases,         \* SUBSET Questions: names the upstream answers with a bare CNAME to AliasTarget
+  AliasTarget      \* the CNAME target (a member of Questions when Aliases is not empty)
+
+(* one more mutant switch, an overridable definition so the generated configs need no new constant (cfg of the negative
+   config: WireSkipsStore <- MutOn): the WIRE transcription of the "mismatched cookie over a stream" branch falls to the
+   shared limiter tail of serveWire and so loses its post-Next cookie store (the decoded body keeps it) *)
+WireSkipsStore == FALSE
 
 Bkts == Clients \X Forms
 None == <<"-", "-">>                      \* no cookie
@@ -125,8 +152,11 @@ NoReq == [id |-> 0, c |-> "-", f |-> "-", proto |-> "-", cc |-> "none", sv |-> "
           ref |-> "skip", clean |-> FALSE]
 \* (ref, clean are ghosts: what the decoded entry would have answered when the call began; whether nothing else
 \*  happened between a handoff and its replay)
-NoRes == [kind |-> "none", rck |-> None, tl |-> 0, chg |-> 0, tot |-> 0, st |-> FALSE, ech |-> 0, etot |-> 0]
-\* chg: client tokens charged by this pass; tot: by this pass and the inline pass it replays; ech / etot: entry tokens likewise
+NoRes == [kind |-> "none", rck |-> None, tl |-> 0, chg |-> 0, tot |-> 0, st |-> FALSE, ech |-> 0, etot |-> 0,
+          ich |-> 0, part |-> FALSE, cz |-> FALSE]
+\* chg: client tokens charged by this pass; tot: by this pass and the inline pass it replays; ech / etot: entry tokens likewise;
+\* ich: entry tokens charged to the internal chase sub-query; part: the reply lacks the chase target (the sub-query was
+\* refused); cz (ghost): the chase met a cached target whose entry limiter was EMPTY -- the state the guard exists for
 
 VARIABLES
   \* ---- LimiterStore ------------------------------------------------------------
@@ -191,7 +221,7 @@ Oracle(r) ==
       match == have = None \/ (r.sv = "good" /\ have = <<r.c, r.cc>>)
       branch == IF r.ex # "none" THEN "pass" ELSE IF ~HasCookie(r) THEN "plain" ELSE IF match THEN "free"
                 ELSE IF r.proto = "udp" THEN "bad" ELSE "plainstore"
-      lim == EntryBurst > 0 /\ r.ex # "internal" IN
+      lim == EntryBurst > 0 /\ (r.ex # "internal" \/ LimitInternal) IN
   IF branch \in {"plain", "bad", "plainstore"} /\ t < 1 THEN "drop"
   ELSE IF branch = "bad" THEN "badcookie"
   ELSE IF r.q \in cached /\ lim /\ etok[r.q] = 0 THEN "edrop"
@@ -215,6 +245,7 @@ Start(p, c, f, proto, cc, sv, q, entry, ex, odd) ==
   /\ ex # "none" => cc = "none" /\ ~odd /\ f = CHOOSE y \in Forms : TRUE
   /\ ex = "internal" => entry = "msg" /\ proto = "udp"
   /\ q \in BigQs => cc = "none" /\ ~odd
+  /\ q \in Aliases => entry \in {"msg", "wire"} /\ Atomic = "call" /\ q \notin BigQs /\ AliasTarget \in Questions \ (Aliases \cup BigQs \cup {"fresh"})
   \* requests in flight together ask different questions (no dedup join below the limiter)
   /\ Atomic # "call" => \A o \in Procs \ {p} : pc[o] # "idle" => (req[o].q # q \/ q = "fresh")
   /\ LET r0 == [id |-> nops + 1, c |-> c, f |-> f, proto |-> proto, cc |-> cc, sv |-> sv, q |-> q,
@@ -333,11 +364,24 @@ BadStore(p) ==
 Down(p) ==
   LET r == req[p]
       hit == r.q \in cached
-      lim == EntryBurst > 0 /\ r.ex # "internal"
+      lim == EntryBurst > 0 /\ (r.ex # "internal" \/ LimitInternal)
+      \* ---- the chase of an alias' target through the internal Queryer (see the head comment) ----
+      chase == r.q \in Aliases
+      T == AliasTarget
+      thit == chase /\ T \in cached
+      tlim == thit /\ LimitInternal /\ EntryBurst > 0          \* mutant only: the internal hit asks the entry limiter
+      trefused == tlim /\ etok[T] = 0
+      tcharged == tlim /\ etok[T] >= 1
+      ctl == IF chase /\ ~thit THEN 1 ELSE 0                    \* the sub-query missed: the upstream is asked for the target
+      ccached == IF chase THEN {T} ELSE {}
+      cetok(e) == IF tcharged THEN [e EXCEPT ![T] = @ - 1] ELSE e
+      cres(k) == [k EXCEPT !.tl = @ + ctl, !.ich = IF tcharged THEN 1 ELSE 0, !.part = trefused,
+                           !.cz = thit /\ EntryBurst > 0 /\ etok[T] = 0]
       \* the wire ladder (wire-born first pass only; the replay pass skips it) turns the hit away on size
       declines == r.entry \in {"wire", "inline"} /\ Wirable(r) /\ ~Fits(r)
       rck == IF HasCookie(r) THEN <<r.c, r.cc>> ELSE None
       after(k) == IF br[p] \in {"free", "plainstore"}
+                       /\ ~(WireSkipsStore /\ br[p] = "plainstore" /\ r.entry \in {"wire", "inline"} /\ Wirable(r))
                     THEN /\ pc' = [pc EXCEPT ![p] = "post"]
                          /\ res' = [res EXCEPT ![p] = k]
                          /\ UNCHANGED snap
@@ -358,15 +402,18 @@ Down(p) ==
        [] hit /\ ~(declines /\ r.entry = "inline") /\ lim /\ etok[r.q] >= 1 ->
             \* chargeEntryLimiter (wire ladder) or handleCacheHit (Msg body; the `spent` memo makes a ladder that
             \* declined after paying and the Msg body of the SAME call one charge): one token, then the reply
-            /\ etok' = [etok EXCEPT ![r.q] = @ - 1]
-            /\ after([res[p] EXCEPT !.kind = ReplyKind(r), !.rck = rck, !.ech = 1, !.etot = @ + 1])
-            /\ UNCHANGED <<cached, pend>>
+            /\ etok' = cetok([etok EXCEPT ![r.q] = @ - 1])
+            /\ after(cres([res[p] EXCEPT !.kind = ReplyKind(r), !.rck = rck, !.ech = 1, !.etot = @ + 1]))
+            /\ cached' = cached \cup ccached
+            /\ UNCHANGED pend
        [] hit /\ ~(declines /\ r.entry = "inline" /\ ~ChargeBeforeFit) /\ lim /\ etok[r.q] = 0 ->
             /\ after([res[p] EXCEPT !.kind = "edrop"])
             /\ UNCHANGED <<cached, etok, pend>>
        [] hit /\ ~(declines /\ r.entry = "inline") /\ ~lim ->
-            /\ after([res[p] EXCEPT !.kind = ReplyKind(r), !.rck = rck])
-            /\ UNCHANGED <<cached, etok, pend>>
+            /\ after(cres([res[p] EXCEPT !.kind = ReplyKind(r), !.rck = rck]))
+            /\ cached' = cached \cup ccached
+            /\ etok' = cetok(etok)
+            /\ UNCHANGED pend
        [] ~hit /\ r.entry = "inline" ->
             \* Cache.ServeDNS: InlineOnly -> MarkHandoff, unwritten
             /\ pend' = pend \cup {[r EXCEPT !.ran = TRUE, !.paid = res[p].chg]}
@@ -374,9 +421,10 @@ Down(p) ==
             /\ UNCHANGED <<cached, etok>>
        [] ~hit /\ r.entry # "inline" ->
             \* the upstream (the scripted tail) is asked, the answer is cached
-            /\ cached' = IF r.q = "fresh" THEN cached ELSE cached \cup {r.q}
-            /\ after([res[p] EXCEPT !.kind = ReplyKind(r), !.rck = rck, !.tl = 1])
-            /\ UNCHANGED <<etok, pend>>
+            /\ cached' = (IF r.q = "fresh" THEN cached ELSE cached \cup {r.q}) \cup ccached
+            /\ after(cres([res[p] EXCEPT !.kind = ReplyKind(r), !.rck = rck, !.tl = 1]))
+            /\ etok' = cetok(etok)
+            /\ UNCHANGED pend
   /\ actor' = IF r.ex # "none" THEN AExempt ELSE ABelow
   /\ UNCHANGED <<store, req, ld, br, nops, gb, own>>
 
@@ -442,6 +490,7 @@ TypeOK ==
   /\ pc \in [Procs -> {"idle", "gate", "get", "load", "allow", "badstore", "down", "post"}]
   /\ br \in [Procs -> {"none", "pass", "plain", "free", "bad", "plainstore"}]
   /\ \A p \in Procs : res[p].kind \in {"none", "answer", "tc", "badcookie", "drop", "edrop", "handoff"}
+  /\ Aliases \subseteq Questions
 
 Done(p) == pc[p] = "idle" /\ res[p].kind # "none"
 
@@ -482,11 +531,26 @@ ExemptUntouched ==
 ExemptNeverLimited ==
   \A p \in Procs : (Done(p) /\ req[p].ex # "none") => res[p].kind \notin {"drop", "badcookie"} /\ res[p].chg = 0 /\ ~res[p].st
 
+(* C17: resolver-internal sub-queries are never subjected to client rate-limit policy -- neither an internal request
+   itself nor the chase a client's alias question makes the cache run is refused by, or charged to, the per-entry limiter *)
+InternalNeverLimited ==
+  \A p \in Procs : Done(p) =>
+     /\ res[p].ich = 0 /\ ~res[p].part
+     /\ req[p].ex = "internal" => (res[p].kind # "edrop" /\ res[p].ech = 0 /\ res[p].etot = 0)
+
 (* cookies: only against the client cookie sent, and the client's own *)
 ReplyCookieIsOwn ==
   \A p \in Procs : (Done(p) /\ res[p].rck # None) => (HasCookie(req[p]) /\ res[p].rck = <<req[p].c, req[p].cc>>)
 AnswerCarriesCookie ==
   \A p \in Procs : (Done(p) /\ res[p].kind \in {"answer", "badcookie"} /\ HasCookie(req[p])) => res[p].rck # None
+(* a request that carried a usable cookie and got past the limiter leaves the server cookie it was handed remembered,
+   whichever entry served it (the decoded body stores after ch.Next in the verified and in the mismatch-over-a-stream
+   branch, and before BADCOOKIE): the client's next query echoing that cookie verifies on every entry alike.  A replay
+   pass that carries the mark skips the limiter; an inline call the strict parser refuses never ran the chain. *)
+CookieRemembered ==
+  \A p \in Procs : (Done(p) /\ HasCookie(req[p]) /\ req[p].ex = "none" /\ res[p].kind # "drop"
+                    /\ ~(req[p].entry = "replay" /\ req[p].ran) /\ ~(req[p].entry = "inline" /\ ~Wirable(req[p])))
+                   => res[p].st
 (* BADCOOKIE: UDP only, only for a cookie that does not verify, costs a token, reaches nothing below *)
 BadCookieSound ==
   \A p \in Procs : (Done(p) /\ res[p].kind = "badcookie") =>
